@@ -4,7 +4,7 @@ import PdfModel.Model.Numeric
 
 /-! Line-protocol handler for the C14 streams (lists: `,` between items, `-` for the empty list).
 
-  c14.load <tolerant 0|1> <k> <objs>       obj `b` | `n<tag>` | `n<tag>:<field>+<field>…`, field `target.optional.want` (want `x` = none)
+  c14.load <tolerant 0|1> <k> <objs>       obj `b` (malformed) | `m` (free / undefined) | `n<tag>` | `n<tag>:<field>+<field>…`, field `target.kind.want` (kind 0 required, 1 optional, 2 list element; want `x` = none)
       → ok | err
   c14.resolve <k> <objs>                   obj `r<j>` | `v<n>`            → `ok <v> | err` then ` ` + the same for fromPrim
   c14.walk <root> <objs>                   obj `l<n>` | `i` | `i<k>+<k>…` | `b`   → `ok <calls> <gets>` | `err <gets>`
@@ -33,13 +33,15 @@ def parseField (s : String) : Option Field :=
   match s.splitOn "." with
   | [t, o, w] => do
     let t ← natOf t
-    let o ← boolOf o
+    -- `0` required, `1` optional, `2` element of a list (a missing object is skipped)
+    let (o, sk) ← if o == "2" then some (false, true) else (boolOf o).map (·, false)
     let w ← if w == "x" then some none else (natOf w).map some
-    some ⟨t, o, w⟩
+    some ⟨t, o, w, sk⟩
   | _ => none
 
 def parseObj (s : String) : Option Obj :=
   if s == "b" then some .bad
+  else if s == "m" then some .missing
   else if s.startsWith "n" then
     match (dropPrefix s 1).splitOn ":" with
     | [tag] => do some (.node (← natOf tag) [])
